@@ -1258,12 +1258,16 @@ Proof.
     pose proof (hist_len base saved Hbase) as Ln.
     pose proof (hist_len c _ HH) as Lc. rewrite app_length in Lc. cbn [length] in Lc.
     destruct o; cbn [keeps] in Ho;
-      try (apply (IH _ sv); [apply Hist_step; [exact HH | exact HS | reflexivity]
-                            | apply (proj1 (proj2 (as_step_cow _ c HS eq_refl))) | exact Hk' | exact Hex]).
+      try (match type of Hex with
+           | as_exec ops (fst (as_step ?o c)) = _ =>
+               apply (IH (fst (as_step o c)) sv);
+               [apply Hist_step; [exact HH | exact HS | reflexivity]
+               | apply (proj1 (proj2 (as_step_cow o c HS eq_refl))) | exact Hk' | exact Hex]
+           end).
     + (* new generation *)
       destruct (tag_ok (as_arena c)) eqn:Et; [|discriminate].
       destruct (newgen_step c _ HH HS Et) as (H1 & S1).
-      apply (IH _ (c :: sv)); assumption.
+      apply (IH (fst (as_step ONewGen c)) (c :: sv)); assumption.
     + (* normalize *)
       pose proof HS as (_ & _ & _ & Hlc).
       destruct (Nat.le_gt_cases (length (a_gens (as_arena c))) (S r)) as [Hle|Hgt].
